@@ -96,7 +96,7 @@ def check_bits(ns, expect):
 
 
 @with_signature(SPEC)
-def c10_step(**kw):
+def c10_step(kw):
     ns, members, idx = make_state(kw)
     op = kw["op"]
     k = len(members)
@@ -271,7 +271,7 @@ def c10_step(**kw):
 
 
 @with_signature(SPEC)
-def c10_masks(**kw):
+def c10_masks(kw):
     """mask <-> taxa round trips and every textual rendering, for an arbitrary valid namespace"""
     ns, members, idx = make_state(kw)
     k = len(members)
@@ -337,7 +337,7 @@ def _ok_label(s, L):
 
 
 @with_signature(SPEC_L)
-def c10_lookup(**kw):
+def c10_lookup(kw):
     """label lookups with symbolic member labels and a symbolic query"""
     L = kw["L"]
     # member labels and the query are symbolic choices from pools that contain duplicates,
